@@ -348,9 +348,20 @@ def end_to_end(ctx):
                     ctx.violation("generated object refused with %d" % st, {"text": o["text"]})
                     continue
                 objs.append(o)
+            # random boundary ranges, then ranges that touch an object's enclosing range (the one the storage layer's
+            # pre-selection works from) exactly at its first and last second
+            queries = []
             for q in range(ctx.n(12, 40)):
                 o = rng.choice(objs)
-                fs, fe = gen_ranges(rng, o, 1)[0]
+                queries.append((o,) + gen_ranges(rng, o, 1)[0])
+            for o in rng.sample(objs, min(len(objs), ctx.n(8, 20))):
+                e0 = o["occ"][0]
+                pts = boundaries(o)
+                edge = [(e0 - 7200, e0), (e0 - 1, e0), (e0 - 7200, e0 + 1), (None, e0), (e0, e0 + 1)]
+                edge += [(p, p + 3600) for p in pts[-4:]] if not o["unbounded"] else []
+                for fs, fe in rng.sample(edge, 4):
+                    queries.append((o, fs, fe))
+            for q, (o, fs, fe) in enumerate(queries):
                 kind = o["kind"]
                 cand = [x for x in objs if x["kind"] == kind and not (x["unbounded"] and fe is None)]
                 fsx, fex = (TMIN if fs is None else fs), (TMAX if fe is None else fe)
